@@ -304,7 +304,7 @@ class Ref:
                 self.cond(role, d, env, reeval=True)
             if form == "default":
                 raise Outcome(("viol", cid))
-            raise Outcome(("cls", "ErrA" if form == "class" else "ErrB", cid))
+            raise Outcome(("cls", "ErrA" if form == "class" else "ErrB", cid), base=(form == "baseclass"))
         if form == "instance":
             raise Outcome(("inst", cid))
         args = (d.get("err") or {}).get("args", [])
@@ -314,7 +314,8 @@ class Ref:
         recv = self.recv(args, env)
         self.ev(("err", cid, recv))
         self.run_script(("err", cid), env)
-        raise Outcome(("tok", self.tok("err", cid)))
+        # vrt.V.err: every third factory returns an exception deriving from BaseException only (scripts do not swallow it)
+        raise Outcome(("tok", self.tok("err", cid)), base=(cid % 3 == 0))
 
     def failed_alternative(self, d, env):
         form = (d.get("err") or {"form": "default"})["form"]
